@@ -35,4 +35,73 @@ Proof.
   all: try solve [apply P; fin].
   all: try solve [destruct P as [P1 P2]; fin; discriminate].
 Qed.
+Lemma pres_IGt s ac s' : Inv s -> step s ac = Some s' ->
+  forall a' i v, In (a', i, v) (got s') -> rd s' i = true /\ cl s' i = Some a' /\ v = val_at s' i /\ i < tix s'.
+Proof.
+  intros Hi H a' i v Hin. pose proof (IGt _ _ Hi a' i v) as G. pose proof (len_pushed _ Bpos _ Hi) as LP.
+  unfold val_at in *.
+  step_cases H; simp; auto.
+  all: try (a_facts Hi a).
+  all: try solve [destruct (G Hin) as (G1 & G2 & G3 & G4); repeat split; auto; updr_all; fin].
+  - destruct (G Hin) as (G1 & G2 & G3 & G4). rewrite nth_error_app1 by lia. auto.
+  - destruct (G Hin) as (G1 & G2 & G3 & G4). rewrite nth_error_app1 by lia. auto.
+  - destruct (G Hin) as (G1 & G2 & G3 & G4). repeat split; auto. bools. updr_all; auto.
+    destruct (unrel_above _ Bpos s i Hi) as (U1 & _); [unfold HL; lia | congruence].
+  - destruct (G Hin) as (G1 & G2 & G3 & G4). repeat split; auto. updr_all; auto.
+    destruct Ha as (_ & _ & _ & (L1 & L2 & L3) & P1 & _).
+    destruct (unrel_above _ Bpos s i Hi) as (U1 & _); [unfold HL; rewrite L2, L3; lia | congruence].
+  - destruct (G Hin) as (G1 & G2 & G3 & G4). repeat split; auto. updr_all; auto.
+    destruct Ha as (_ & _ & _ & (L1 & L2 & L3) & P1 & _).
+    destruct (unrel_above _ Bpos s i Hi) as (U1 & _); [unfold HL; rewrite L2, L3; lia | congruence].
+  - destruct (G Hin) as (G1 & G2 & G3 & G4). repeat split; auto. updr_all; auto.
+    destruct Ha as (_ & _ & _ & (L1 & L2 & L3) & P1 & _).
+    destruct (unrel_above _ Bpos s i Hi) as (U1 & _); [unfold HL; rewrite L2, L3; lia | congruence].
+  - destruct Ha as (Hli & _ & _ & Hc & Pp & Pe & Pt).
+    destruct (claim_facts _ Bpos _ _ _ Hi Hc) as (K1 & K2 & K3 & K4 & K5 & K6 & K7 & K8 & K9).
+    destruct Hc as (C1 & C2 & C3 & C4 & C5). rewrite Epc in C5.
+    apply in_app_or in Hin. destruct Hin as [Hin|Hin].
+    + destruct (G Hin) as (G1 & G2 & G3 & G4). repeat split; auto. updr_all; auto.
+    + apply in_map_iff in Hin. destruct Hin as (j & E & Hj). inversion E; subst a' i v. clear E.
+      apply in_seq in Hj. rewrite Pp, Pe in *.
+      destruct (C5 (glo (A s a) + j) ltac:(lia)) as (Q1 & Q2 & Q3).
+      repeat split; auto; [updr_all; fin | | lia].
+      destruct (IBk _ _ Hi _ C2) as (_ & _ & _ & _ & _ & _ & SL).
+      rewrite (SL (li (A s a) + j)); [unfold val_at; f_equal; lia | lia | lia].
+Qed.
+
+
+Lemma pres_IGn s ac s' : Inv s -> step s ac = Some s' -> NoDup (map gidx (got s')).
+Proof.
+  intros Hi H. pose proof (IGn _ _ Hi) as G. fold gidx in G.
+  step_cases H; simp; auto.
+  a_facts Hi a. destruct Ha as (Hli & _ & _ & Hc & Pp & Pe & Pt). destruct Hc as (C1 & C2 & C3 & C4 & C5). rewrite Epc in C5.
+  rewrite map_app, map_map. unfold gidx at 2. cbn [fst snd]. rewrite (map_add_seq B Bpos).
+  apply nodup_app; auto; [apply seq_NoDup|].
+  intros i Hin Hs. apply in_seq in Hs. apply in_map_iff in Hin. destruct Hin as ([[a' j] v] & E & Hin). unfold gidx in E; cbn in E; subst j.
+  apply (IGt _ _ Hi) in Hin. destruct Hin as (G1 & _). destruct (C5 i) as (_ & _ & Q); [lia|congruence].
+Qed.
+
+Lemma pres_IGr s ac s' : Inv s -> step s ac = Some s' -> forall i, rd s' i = true -> In i (map gidx (got s')).
+Proof.
+  intros Hi H i Hr. pose proof (IGr _ _ Hi i) as G. fold gidx in G.
+  step_cases H; simp; auto.
+  a_facts Hi a. rewrite map_app, map_map. unfold gidx at 2. cbn [fst snd]. rewrite (map_add_seq B Bpos).
+  apply in_or_app. updr_all; [right; apply in_seq; lia | left; auto].
+Qed.
+
+Lemma pres_ILu s ac s' : Inv s -> step s ac = Some s' ->
+  forall a1 a2, lockpc B (A s' a1) = true -> lockpc B (A s' a2) = true -> a1 = a2.
+Proof.
+  intros Hi H a1 a2 L1 L2. pose proof (ILu _ _ Hi a1 a2) as U.
+  pose proof (lock_knows _ s a1 Hi) as K1. pose proof (lock_knows _ s a2 Hi) as K2.
+  step_cases H; simp; auto.
+  all: try (a_facts Hi a).
+  all: destruct (Nat.eq_dec a1 a) as [->|N1]; destruct (Nat.eq_dec a2 a) as [->|N2]; auto.
+  all: rewrite ?upd_eq, ?upd_neq in * by auto.
+  all: try (destruct k; discriminate).
+  all: try solve [bools; first [destruct (K1 L1) as (Q & _) | destruct (K2 L2) as (Q & _)]; congruence].
+  all: unfold lockpc, lockedB, locked in *; simp; rewrite ?Epc in *; cbn beta iota in *.
+  all: try discriminate.
+  all: try solve [apply U; auto].
+Qed.
 End S.
